@@ -126,6 +126,251 @@ def eq_hash_glue(run):
                            replay=dict(replayed=False, body=src), signature=f"{cls}.{m}:glue")
 
 
+# ------------------------------------------------------------------------------------------------------------------
+# C14/field_wfsa.Simple.counterexample/witness-genuine  (loop invariant over the real while/for body)
+#
+# Spec functions (uninterpreted, defined by the recursion that IS the string weight of a dense automaton):
+#     back_X(())      = stop_X                      back_X((a, w)) = M_X(a) · back_X(w)      weight_X(w) = start_X · back_X(w)
+# with M_X(a) = arcs_X[a] when a is a key of arcs_X and the zero matrix otherwise.
+# Invariant on every worklist entry (w, VA, VB):  VA = back_A(w)  and  VB = back_B(w).
+# Obligations: the initial entry satisfies it; a generic iteration (generic entry, two successive generic symbols) appends only
+# entries that satisfy it; every `return (w', va, vb)` has va = weight_A(w'), vb = weight_B(w') and is guarded by
+# `not approx_equal(va, vb)` on that very pair.  Linear algebra is uninterpreted except for ONE axiom (Z · v = 0 * v, both the zero vector);
+# approx_equal is an uninterpreted predicate (A1 reads it as equality); proj and the basis are opaque (they only decide what is
+# explored: completeness is T-KIEFER, assumed and bounded).
+_Vec = z3.DeclareSort("Vec")
+_Mat = z3.DeclareSort("Mat")
+_Word = z3.Datatype("Word")
+_Word.declare("nil")
+_Word.declare("cons", ("hd", z3.IntSort()), ("tl", _Word))
+_Word = _Word.create()
+_mv = z3.Function("mv", _Mat, _Vec, _Vec)
+_vm = z3.Function("vm", _Vec, _Mat, _Vec)
+_dot = z3.Function("dot", _Vec, _Vec, z3.RealSort())
+_scale = z3.Function("scale", z3.RealSort(), _Vec, _Vec)
+_vsub = z3.Function("vsub", _Vec, _Vec, _Vec)
+_hstack = z3.Function("hstack", _Vec, _Vec, _Vec)
+_approxS = z3.Function("approx_scalar", z3.RealSort(), z3.RealSort(), z3.BoolSort())
+_approxV = z3.Function("approx_vector", _Vec, _Vec, z3.BoolSort())
+_zeroM = z3.Const("ZeroMatrix", _Mat)
+_zeroV = z3.Const("ZeroVector", _Vec)
+
+
+class LA:
+    """A vector or matrix term."""
+
+    def __init__(self, e):
+        self.e = e
+
+    def __pyvc_binop__(self, it, op, other, rev, node):
+        import ast
+        t = type(op)
+        a, b = (other, self) if rev else (self, other)
+        sa = a.e.sort() if isinstance(a, LA) else None
+        sb = b.e.sort() if isinstance(b, LA) else None
+        if t is ast.MatMult and sa is not None and sb is not None:
+            if sa == _Vec and sb == _Vec:
+                return I.Z(_dot(a.e, b.e))
+            if sa == _Mat and sb == _Vec:
+                return LA(_mv(a.e, b.e))
+            if sa == _Vec and sb == _Mat:
+                return LA(_vm(a.e, b.e))
+        if t is ast.Mult and (sa is None) != (sb is None):
+            k, v = (a, b) if sa is None else (b, a)
+            if v.e.sort() == _Vec and (isinstance(k, (int, float)) or (isinstance(k, I.Z) and k.is_num())):
+                return LA(_scale(I.to_real(k), v.e))
+        if t is ast.Sub and sa == _Vec and sb == _Vec:
+            return LA(_vsub(a.e, b.e))
+        raise I.OutOfSubset(f"linear-algebra operator {t.__name__} outside the modelled fragment (line {getattr(node, 'lineno', '?')})")
+
+
+class _Arcs:
+    """arcs of one dense automaton: key test and lookup are uninterpreted functions of the symbol."""
+
+    def __init__(self, tag):
+        self.tag = tag
+        self.has = z3.Function(f"has_{tag}", z3.IntSort(), z3.BoolSort())
+        self.mat = z3.Function(f"arcs_{tag}", z3.IntSort(), _Mat)
+
+    def __pyvc_contains__(self, it, x):
+        return I.Z(self.has(x.e))
+
+    def __pyvc_getitem__(self, it, k, node):
+        if not it.path.decide(self.has(k.e)):
+            raise I.PyRaise("KeyError", f"arcs_{self.tag}[symbol] for a symbol that is not a key", node)
+        return LA(self.mat(k.e))
+
+    def M(self, a):
+        return z3.If(self.has(a), self.mat(a), _zeroM)
+
+
+class _Alphabet:
+    """set(self.arcs) | set(B.arcs): two successive generic symbols."""
+
+    def __init__(self, parts):
+        self.parts = parts
+
+    def __pyvc_binop__(self, it, op, other, rev, node):
+        import ast
+        if isinstance(op, ast.BitOr) and isinstance(other, _Alphabet):
+            return _Alphabet(self.parts + other.parts)
+        raise I.OutOfSubset("alphabet expression")
+
+    def __pyvc_iter__(self, it):
+        if len(self.parts) != 2:
+            raise I.OutOfSubset("the alphabet is not the union of the two key sets")
+        out = []
+        for n in ("a1", "a2"):
+            a = z3.Int(n)
+            it.path.assume(z3.Or(*[p.has(a) for p in self.parts])) if hasattr(it.path, "assume") else None
+            out.append(I.Z(a))
+        return out
+
+
+def _toword(x):
+    if isinstance(x, tuple) and len(x) == 0:
+        return _Word.nil
+    if isinstance(x, tuple) and len(x) == 2 and isinstance(x[0], I.Z) and x[0].is_int():
+        t = _toword(x[1])
+        return None if t is None else _Word.cons(x[0].e, t)
+    if isinstance(x, LA) and x.e.sort() == _Word:
+        return x.e
+    return None
+
+
+def witness_genuine(run):
+    name = "C14/field_wfsa.Simple.counterexample/witness-genuine"
+    try:
+        fn = source.find(REL, "Simple.counterexample")
+    except KeyError:
+        run.obligation(name, "out-of-subset", detail="Simple.counterexample not found")
+        return
+    run.function_under_contract("genlm.grammar.wfsa.field_wfsa.Simple.counterexample", source.sha(fn))
+    run.trust("linear algebra uninterpreted (mv, vm, dot, scale, vsub, hstack) with the single axiom ZeroMatrix·v = 0*v; "
+              "approx_equal uninterpreted (A1: equality); proj/basis opaque")
+    A, B = _Arcs("A"), _Arcs("B")
+    startA, stopA, startB, stopB = (z3.Const(n, _Vec) for n in ("startA", "stopA", "startB", "stopB"))
+    backA = z3.Function("back_A", _Word, _Vec)
+    backB = z3.Function("back_B", _Word, _Vec)
+    w0 = z3.Const("w0", _Word)
+    VA0, VB0 = z3.Const("VA0", _Vec), z3.Const("VB0", _Vec)
+    a1, a2 = z3.Int("a1"), z3.Int("a2")
+    words = [w0, _Word.cons(a1, w0), _Word.cons(a2, w0)]
+    ax = [backA(_Word.nil) == stopA, backB(_Word.nil) == stopB]
+    for a in (a1, a2):                       # ground instances of the defining recursion and of the zero-matrix axiom
+        ax += [backA(_Word.cons(a, w0)) == _mv(A.M(a), backA(w0)), backB(_Word.cons(a, w0)) == _mv(B.M(a), backB(w0))]
+    ax += [_mv(_zeroM, backA(w0)) == _scale(z3.RealVal(0), backA(w0)), _mv(_zeroM, backB(w0)) == _scale(z3.RealVal(0), backB(w0))]
+    inv0 = [VA0 == backA(w0), VB0 == backB(w0)]
+
+    def weightA(w):
+        return _dot(startA, backA(w))
+
+    def weightB(w):
+        return _dot(startB, backB(w))
+
+    def harness(path):
+        it = I.Interp(path)
+        appended, state = [], dict(n=0, fresh=0)
+
+        def fresh_vec(tag):
+            state["fresh"] += 1
+            return LA(z3.Const(f"{tag}_{state['fresh']}", _Vec))
+
+        def approx(i2, a, kw):
+            x, y = a
+            if isinstance(x, LA) or isinstance(y, LA):
+                ex = x.e if isinstance(x, LA) else _zeroV if (x == 0 and not isinstance(x, I.Z)) else None
+                ey = y.e if isinstance(y, LA) else _zeroV if (y == 0 and not isinstance(y, I.Z)) else None
+                if ex is None or ey is None:
+                    raise I.OutOfSubset("approx_equal on a vector and a non-zero scalar")
+                return I.Z(_approxV(ex, ey))
+            return I.Z(_approxS(I.to_real(x), I.to_real(y)))
+
+        class WL(Bag):
+            def __pyvc_truth__(self, i2):
+                state["n"] += 1
+                return state["n"] == 1          # one generic iteration of the while loop
+
+        def wl_append(i2, a, kw):
+            appended.append((a[0], list(i2.path.pc), state["n"] >= 1))
+
+        def wl_pop(i2, a, kw):
+            return (LA(w0), LA(VA0), LA(VB0))
+
+        def hstack(i2, a, kw):
+            (xs,) = a
+            if not (isinstance(xs, (list, tuple)) and len(xs) == 2 and all(isinstance(x, LA) and x.e.sort() == _Vec for x in xs)):
+                raise I.OutOfSubset("np.hstack outside the modelled fragment")
+            return LA(_hstack(xs[0].e, xs[1].e))
+
+        def mkset(i2, a, kw):
+            if len(a) == 1 and isinstance(a[0], _Arcs):
+                return _Alphabet([a[0]])
+            raise I.OutOfSubset("set() of something other than an arcs map")
+
+        selfobj = Bag(start=LA(startA), stop=LA(stopA), arcs=A)
+        other = Bag(start=LA(startB), stop=LA(stopB), arcs=B)
+        g = {"np": Bag(hstack=I.Native("hstack", hstack)), "approx_equal": I.Native("approx_equal", approx),
+             "proj": I.Native("proj", lambda i2, a, kw: fresh_vec("proj")), "set": I.Native("set", mkset),
+             "deque": I.Native("deque", lambda i2, a, kw: WL(append=I.Native("append", wl_append), pop=I.Native("pop", wl_pop),
+                                                             popleft=I.Native("popleft", wl_pop)))}
+        fobj = I.FuncObj(fn, I.Env(None, g), "Simple.counterexample")
+        ret = it.call_func(fobj, [selfobj, other], {})
+        return ret, appended, state["n"]
+
+    try:
+        results = I.explore(harness)
+    except (I.OutOfSubset, I.PyRaise) as e:
+        run.obligation(name, "out-of-subset", detail=str(e))
+        return
+    n_ret = n_app = n_none = 0
+    ms = 0.0
+    for path, (ret, appended, nloop) in results:
+        in_loop = nloop >= 1
+        hyp = list(ax) + (inv0 if in_loop else [])
+        for k, (entry, pc, inside) in enumerate(appended):
+            ok = isinstance(entry, tuple) and len(entry) == 3 and isinstance(entry[1], LA) and isinstance(entry[2], LA)
+            wt = _toword(entry[0]) if ok else None
+            if wt is None:
+                run.obligation(name, "out-of-subset", detail="a worklist entry is not (word, vector, vector)")
+                return
+            # the entry appended before the loop is checked without the invariant hypothesis
+            h = list(ax) + (inv0 if inside else [])
+            q = smt.prove(h + pc, z3.And(entry[1].e == backA(wt), entry[2].e == backB(wt)))
+            ms += q["ms"]
+            n_app += 1
+            if q["verdict"] != "proved":
+                run.obligation(name, q["verdict"], ms=ms, detail=f"a worklist entry (w, VA, VB) does not satisfy VA = back_A(w), VB = back_B(w): entry #{k} word {wt}",
+                               replay=dict(replayed=False, hint="two one-state automata over {a, b} that differ on one symbol; compare the reported weights with Simple.__call__-style products"),
+                               signature="counterexample:worklist-invariant")
+                return
+        if ret is None:
+            n_none += 1
+            continue
+        ok = isinstance(ret, tuple) and len(ret) == 3
+        wt = _toword(ret[0]) if ok else None
+        if wt is None or not all(isinstance(x, I.Z) and x.is_num() for x in ret[1:]):
+            run.obligation(name, "out-of-subset", detail="a returned value is not (word, scalar, scalar)")
+            return
+        va, vb = I.to_real(ret[1]), I.to_real(ret[2])
+        goal = z3.And(va == weightA(wt), vb == weightB(wt), z3.Not(_approxS(va, vb)))
+        q = smt.prove(hyp + list(path.pc), goal)
+        ms += q["ms"]
+        n_ret += 1
+        if q["verdict"] != "proved":
+            run.obligation(name, q["verdict"], ms=ms, detail=f"a returned witness (w, va, vb) is not (w, weight_A(w), weight_B(w)) guarded by `not approx_equal(va, vb)`: word {wt}",
+                           replay=dict(replayed=False, hint="compare counterexample()'s reported weights with the automata's own string weights on the reported string"),
+                           signature="counterexample:witness")
+            return
+    if n_ret < 2 or n_app < 2 or n_none < 1:
+        run.obligation(name, "out-of-subset", detail=f"vacuous: {n_ret} returns, {n_app} appends, {n_none} None-paths")
+    else:
+        run.obligation(name, "proved", backend="pyvc+z3", ms=ms,
+                       detail=f"{len(results)} paths: {n_app} worklist appends keep VA = back_A(w), VB = back_B(w); {n_ret} returns report "
+                              f"(w, start_A·back_A(w), start_B·back_B(w)) under `not approx_equal`; {n_none} paths return None")
+
+
 def proved(run):
     simple_faithful(run)
     eq_hash_glue(run)
+    witness_genuine(run)
